@@ -1437,6 +1437,10 @@ class Interp:
                 st.pc = paths[0][0].pc
                 return ("goto", paths[0][1])
             if not paths:
+                if os.environ.get("VERIF_DEBUG"):
+                    print("DEBUG no feasible target; assumptions alone:", self.solver.check(*self.assumptions), "pc alone:", self.solver.check(*[c for c in st.pc if c is not True]), file=sys.stderr)
+                    print("DEBUG pc:", [str(c)[:200] for c in st.pc][-6:], file=sys.stderr)
+                    print("DEBUG assumptions:", [str(c)[:120] for c in self.assumptions][-12:], file=sys.stderr)
                 raise Unsupported("no feasible switch target in %s bb%d" % (fn.name, bb))
             return ("paths", paths)
         if k == "assert":
